@@ -574,7 +574,13 @@ func oblBases(in ssa.Instruction) []string {
 	case *ssa.Call:
 		return []string{"safe:call@" + render(x, 0), "fresh-recv@" + render(x, 0), "frame:append@" + render(x, 0), "frame:copy@" + render(x, 0)}
 	case *ssa.Store:
-		return []string{"frame:store@" + render(x.Addr, 0)}
+		out := []string{"frame:store@" + render(x.Addr, 0)}
+		if fa, ok := x.Addr.(*ssa.FieldAddr); ok {
+			if st := derefStruct(fa.X.Type()); st != nil {
+				out = append(out, "store:"+st.s.Field(fa.Field).Name())
+			}
+		}
+		return out
 	}
 	return nil
 }
